@@ -110,6 +110,7 @@ pub struct EbrMon {
     pub ended: Vec<bool>,
     pub deferred: Vec<DefInfo>,
     pub list_inserted: HashMap<usize, (u64, u64)>,
+    pub list_invoked: std::collections::HashSet<usize>,
     pub list_deleted: HashMap<usize, u64>,
     pub list_finalized: HashMap<usize, u32>,
 }
